@@ -10,9 +10,17 @@
     net/http Transport.dialConn        (scheme dispatch of the transport: anything that is not socks5
                                         is spoken to as an HTTP proxy)
     net.go          DialRedirectFromHostPortPairs
+    http_proxy.go   NewHTTPProxy (hosts-file aliases appended to the localhost names)
+    pac/pac.go      FindProxyForURL(u, "") : the script sees `u.String()` and `u.Hostname()`
+    pac/pool.go     the resolver pool — the only state a proxy instance keeps between two routing
+                    decisions; the decision does not read it
+  PAC scripts are decision lists over the URL and the host (`UrlScript`; the host table `PacScript`
+  is the special case whose conditions are all `host == k`); a proxy instance is folded over a list
+  of requests (`runSeq`).  `shExpMatch` is C14's model of `ascii_pac_utils.js`.
   Core-only.
 -/
 import FwdVerif.Model.Req
+import FwdVerif.Model.C14
 
 namespace FwdVerif
 namespace C05
@@ -50,7 +58,16 @@ structure PacProxy where
   port : Bytes
   deriving Repr, DecidableEq
 
-/-- `parseProxy`: `none` = error, `some none` = DIRECT -/
+/-- `strconv.ParseUint(port, 10, 16)` succeeds: one or more decimal digits (no sign, no `_`), value
+    at most 65535 (leading zeros allowed) -/
+def validPort (p : Bytes) : Bool :=
+  !p.isEmpty && p.all isDigit && decide (p.foldl (fun n c => n * 10 + (c.toNat - 48)) 0 ≤ 65535)
+
+/-- `host != "" && !strings.ContainsAny(host, " \t")` -/
+def validHost (h : Bytes) : Bool := !h.isEmpty && !h.any (fun c => c == 32 || c == 9)
+
+/-- `parseProxy`: `none` = error, `some none` = DIRECT.  After `net.SplitHostPort` the host must be
+    non-empty without blank/tab and the port a decimal number ≤ 65535 — whatever the keyword. -/
 def parseProxy (s : Bytes) : Option (Option PacProxy) :=
   let s := trimSpace s
   if s.isEmpty then some none
@@ -60,7 +77,10 @@ def parseProxy (s : Bytes) : Option (Option PacProxy) :=
     | some (mode, hostport) =>
       match netSplitHostPort hostport with
       | none => none
-      | some (h, p) => some (some { mode := parseMode mode, host := h, port := p })
+      | some (h, p) =>
+        if !validHost h then none                    -- invalid host
+        else if !validPort p then none               -- invalid port
+        else some (some { mode := parseMode mode, host := h, port := p })
 
 /-- `Proxies.First`: only what precedes the first `;` is looked at -/
 def pacFirst (s : Bytes) : Option (Option PacProxy) :=
@@ -275,6 +295,161 @@ def toUpstream : Except RouteError (Option ProxyURL) → Upstream
   | .error _ => .failed
   | .ok none => .none
   | .ok (some u) => proxyUpstream u
+
+/-! ### localhost names (`NewHTTPProxy`) -/
+
+/-- `hp.localhost` as `newHTTPProxy` initialises it -/
+def builtinLocalhost : List Bytes := [bs "localhost", bs "0.0.0.0", bs "::"]
+
+/-- `hp.localhost` after `NewHTTPProxy` appended `hostsfile.LocalhostAliases()`: the names the hosts
+    file maps to a loopback address -/
+def hpLocalhost (aliases : List Bytes) : List Bytes := builtinLocalhost ++ aliases
+
+/-- `HTTPProxy.isLocalhost` with the alias list as a parameter -/
+def isLocalhost (aliases : List Bytes) (host : Bytes) : Bool := Req.isLocalhostNames (hpLocalhost aliases) host
+
+/-! ### PAC scripts that decide on the whole URL -/
+
+/-- conditions of the generated scripts, as JavaScript:
+    `host == "k"`, `shExpMatch(host, "pat")`, `shExpMatch(url, "pat")`, `url.substring(0, n) == "p"`
+    (`n = |p|`), `url.indexOf("s") >= 0`, `!(c)`, `(a) && (b)` -/
+inductive UrlCond where
+  | hostIs (k : Bytes)
+  | hostGlob (pat : Bytes)
+  | urlGlob (pat : Bytes)
+  | urlPrefix (p : Bytes)
+  | urlContains (s : Bytes)
+  | not (c : UrlCond)
+  | and (a b : UrlCond)
+  deriving Repr
+
+/-- every glob pattern lies in the fragment C14's `shExpMatch` models -/
+def UrlCond.modelled : UrlCond → Bool
+  | .hostGlob pat => (C14.compileGlob pat).isSome
+  | .urlGlob pat => (C14.compileGlob pat).isSome
+  | .not c => c.modelled
+  | .and a b => a.modelled && b.modelled
+  | _ => true
+
+def UrlCond.holds (url host : Bytes) : UrlCond → Bool
+  | .hostIs k => host == k
+  | .hostGlob pat => (C14.shExpMatch host pat).getD false
+  | .urlGlob pat => (C14.shExpMatch url pat).getD false
+  | .urlPrefix p => url.take p.length == p
+  | .urlContains s => Req.isInfix s url
+  | .not c => !(c.holds url host)
+  | .and a b => a.holds url host && b.holds url host
+
+/-- `if (cond) { return r | throw | return 42 }` -/
+structure UrlRule where
+  cond : UrlCond
+  result : PacResult
+  deriving Repr
+
+/-- `function FindProxyForURL(url, host) { if (c₁) {r₁} … if (cₙ) {rₙ} dflt }` -/
+structure UrlScript where
+  rules : List UrlRule := []
+  dflt : PacResult := .ok []
+  deriving Repr
+
+def UrlScript.modelled (s : UrlScript) : Bool := s.rules.all fun r => r.cond.modelled
+
+/-- the first rule whose condition holds decides -/
+def UrlScript.eval (s : UrlScript) (url host : Bytes) : PacResult :=
+  match s.rules.find? (fun r => r.cond.holds url host) with
+  | some r => r.result
+  | none => s.dflt
+
+/-- a host table as a URL script -/
+def UrlScript.ofTable (p : PacScript) : UrlScript :=
+  { rules := p.table.map fun e => { cond := .hostIs e.1, result := e.2 }, dflt := p.dflt }
+
+/-- what `pacProxy` makes of the script's answer -/
+def pacAnswer : PacResult → Except RouteError (Option ProxyURL)
+  | .fail => .error .pacScript
+  | .ok s =>
+    if s.any (fun c => c ≥ 128) then .error .pacScript else
+    match pacFirst s with
+    | none => .error .pacEntry
+    | some none => .ok none
+    | some (some e) => if e.mode.unsupported then .error (.unsupportedScheme e.mode.scheme) else .ok e.url
+
+/-! ### one proxy instance and the requests it serves -/
+
+/-- what the proxy function sees of a request: `r.URL` when `hp.proxyFunc(r)` runs
+    (`http.Transport` for a forwarded request, `martian.Proxy.connect` for CONNECT) -/
+structure RouteReq where
+  connect : Bool := false
+  scheme : Bytes := []                -- `http` | `https` (request read inside an intercepted tunnel); empty for CONNECT
+  urlHost : Bytes                     -- `r.URL.Host`: the authority as the client wrote it
+  path : Bytes := []                  -- escaped path (empty for CONNECT)
+  query : Option Bytes := none
+  deriving Repr, DecidableEq
+
+/-- `r.URL.String()` — `//host:port` for CONNECT, whose URL has neither scheme nor path -/
+def RouteReq.url (q : RouteReq) : Bytes :=
+  (if q.scheme.isEmpty then [] else q.scheme ++ [58]) ++ bs "//" ++ q.urlHost ++ q.path ++
+    (match q.query with | some x => 63 :: x | none => [])
+
+/-- the `host` argument of the script: `u.Hostname()` -/
+def RouteReq.host (q : RouteReq) : Bytes := hostname q.urlHost
+
+/-- configuration of one proxy instance: a `RouteCfg`, whose PAC base may be a URL script (then
+    `rc.base` is not looked at) -/
+structure InstCfg where
+  rc : RouteCfg
+  script : Option UrlScript := none
+  deriving Repr
+
+/-- the routing configuration as it answers request `q`: `FindProxyForURL` is called with `q`'s own
+    URL and host, so for this request the PAC base is the script's answer for them -/
+def InstCfg.at (c : InstCfg) (q : RouteReq) : RouteCfg :=
+  match c.script with
+  | none => c.rc
+  | some s => { c.rc with base := .pac { table := [], dflt := s.eval q.url q.host } }
+
+/-- where request `q` is sent -/
+def route (c : InstCfg) (q : RouteReq) : Except RouteError Hop :=
+  if q.connect then routeConnect (c.at q) q.urlHost else routeRequest (c.at q) q.scheme q.urlHost
+
+/-- the script's answer for `q`, when the instance has a script -/
+def scriptAnswer (c : InstCfg) (q : RouteReq) : Option PacResult := c.script.map fun s => s.eval q.url q.host
+
+/-- everything a proxy instance keeps between two routing decisions: the resolver pool (`sync.Pool`
+    of script VMs) — `made` VMs created so far, `idle` of them lying in the pool -/
+structure InstState where
+  idle : Nat := 0
+  made : Nat := 0
+  deriving Repr, DecidableEq
+
+/-- `pool.get()` … `pool.Put(pr)` around one evaluation -/
+def InstState.evaluate (st : InstState) : InstState :=
+  if st.idle == 0 then { idle := 1, made := st.made + 1 } else st
+
+/-- one request: the pool is used when the instance has a script; the decision does not read the state -/
+def step (c : InstCfg) (st : InstState) (q : RouteReq) : InstState × Except RouteError Hop :=
+  ((if c.script.isSome then st.evaluate else st), route c q)
+
+/-- the decisions of one proxy instance for a list of requests, in order -/
+def runSeq (c : InstCfg) : InstState → List RouteReq → List (Except RouteError Hop)
+  | _, [] => []
+  | st, q :: qs => (step c st q).2 :: runSeq c (step c st q).1 qs
+
+/-! ### the counter-model: an instance that remembers answers under a key -/
+
+def assoc {κ β : Type} [DecidableEq κ] (k : κ) : List (κ × β) → Option β
+  | [] => none
+  | (k', b) :: t => if k' = k then some b else assoc k t
+
+/-- answers of `f` served through a cache keyed by `key` that stores the answers `keep` admits
+    (e.g. a cache of PAC answers per host in the resolver pool) -/
+def memoRun {α β κ : Type} [DecidableEq κ] (key : α → κ) (keep : β → Bool) (f : α → β) :
+    List (κ × β) → List α → List β
+  | _, [] => []
+  | cache, q :: qs =>
+    match assoc (key q) cache with
+    | some b => b :: memoRun key keep f cache qs
+    | none => f q :: memoRun key keep f (if keep (f q) then (key q, f q) :: cache else cache) qs
 
 end C05
 end FwdVerif
